@@ -195,10 +195,10 @@ func c10Serialisable(c *Ctx, keys []pairKey, big string) {
 	id := 0
 	files := map[string]string{"big.lua": big, "other.lua": "gother = 1\n", "second.lua": "local s2 = 1\nprint(s2)\n"}
 	owner := map[int][2]int{} // case id -> (experiment id, perm index or -1)
-	for ei, k := range keys {
-		e := &exp{k: k, msgs: []proto.Step{c10Msg(k.a, 0, big), c10Msg(k.b, 1, big), c10Msg(k.a, 2, big)}}
+	addExp := func(ei int, k pairKey, msgs []proto.Step, files map[string]string, doc string) {
+		e := &exp{k: k, msgs: msgs}
 		exps[ei] = e
-		prelude := []proto.Step{openStep("big.lua", big)}
+		prelude := []proto.Step{openStep("big.lua", doc)}
 		if k.a == "textDocument/didClose" || k.b == "textDocument/didClose" {
 			prelude = append(prelude, openStep("second.lua", "local s2 = 1\nprint(s2)\n"))
 		}
@@ -220,6 +220,38 @@ func c10Serialisable(c *Ctx, keys []pairKey, big string) {
 			}
 			owner[id] = [2]int{ei, pi}
 			cases = append(cases, []*proto.Case{sq})
+		}
+	}
+	for ei, k := range keys {
+		addExp(ei, k, []proto.Step{c10Msg(k.a, 0, big), c10Msg(k.b, 1, big), c10Msg(k.a, 2, big)}, files, big)
+	}
+	// an edit that changes what a name denotes (an inner local is renamed to the name of an outer one), sent while a
+	// slow request holds the server and a position request on that name waits behind it: the waiting request must be
+	// answered for the text before the edit or for the text after it, never for a mixture
+	{
+		var sb strings.Builder
+		sb.WriteString("local val = 1\nlocal function f()\n  local other = 2\n  return other\nend\nprint(val, f)\ngbig = 1\n")
+		for i := 0; i < 60000; i++ {
+			sb.WriteString("print(gbig)\n")
+		}
+		doc := sb.String()
+		sfiles := map[string]string{"big.lua": doc, "other.lua": "gother = 1\n", "second.lua": "local s2 = 1\nprint(s2)\n"}
+		slow := proto.Step{M: "textDocument/references", NoWait: true, P: json.RawMessage(`{"textDocument":{"uri":"file://$ROOT/big.lua"},"position":{"line":6,"character":1},"context":{"includeDeclaration":true}}`)}
+		edit := proto.Step{M: "textDocument/didChange", N: true, NoWait: true, P: json.RawMessage(`{"textDocument":{"uri":"file://$ROOT/big.lua","version":2},"contentChanges":[{"range":{"start":{"line":2,"character":8},"end":{"line":2,"character":13}},"text":"val"},{"range":{"start":{"line":3,"character":9},"end":{"line":3,"character":14}},"text":"val"}]}`)}
+		for r := 0; r < 3; r++ {
+			for _, kind := range []string{"textDocument/definition", "textDocument/hover", "textDocument/references", "textDocument/rename"} {
+				pos := `{"textDocument":{"uri":"file://$ROOT/big.lua"},"position":{"line":3,"character":10}`
+				switch kind {
+				case "textDocument/references":
+					pos += `,"context":{"includeDeclaration":true}`
+				case "textDocument/rename":
+					pos += `,"newName":"zz"`
+				}
+				q := proto.Step{M: kind, NoWait: true, P: json.RawMessage(pos + "}")}
+				k := pairKey{a: kind + " (behind a slow request, on a name the edit re-binds)", b: "textDocument/didChange"}
+				keys = append(keys, k)
+				addExp(len(keys)-1, k, []proto.Step{slow, q, edit}, sfiles, doc)
+			}
 		}
 	}
 	p := c.NewPool(0)
